@@ -16,6 +16,7 @@ use p2panda_store::{SqliteStore, Transaction};
 use p2panda_stream::orderer::Orderer;
 use p2panda_stream::Processor;
 
+use crate::minv::MinV;
 use crate::gate::{drive_next, key, make_item, pending_rows, ready_rows, wipe, Ctl, Ctx, Fired, Gate, Item, NextEnd};
 
 #[derive(Clone, Debug, PartialEq, Eq, Hash)]
@@ -25,6 +26,8 @@ struct Hist {
     order: Vec<usize>,
     drain_each: bool,
     max_cancels: usize,
+    /// index of the exploration part (determines how the free choices are decoded on replay)
+    part: usize,
 }
 
 fn shape_lists(shape: &str) -> Vec<Vec<usize>> {
@@ -51,7 +54,9 @@ fn static_shape(s: &str) -> &'static str {
 
 impl Hist {
     fn to_json(&self, vector: &[u32]) -> Value {
-        json!({"part": "c12", "shape": self.shape, "order": self.order, "drain_each": self.drain_each, "max_cancels": self.max_cancels, "vector": vector})
+        json!({"part": "c12", "shape": self.shape, "order": self.order, "drain_each": self.drain_each, "max_cancels": self.max_cancels,
+               "part_index": self.part, "vector": vector,
+               "legend": "vector = [shape, order, drain policy, then one entry per store call of every `next`: 0 none, 1 Pending before, 2 Pending after first poll, 3 Pending after completion]"})
     }
     fn from_json(v: &Value) -> Option<(Hist, Vec<u32>)> {
         Some((
@@ -60,6 +65,7 @@ impl Hist {
                 order: v.get("order")?.as_array()?.iter().map(|x| x.as_u64().unwrap_or(0) as usize).collect(),
                 drain_each: v.get("drain_each")?.as_bool()?,
                 max_cancels: v.get("max_cancels")?.as_u64()? as usize,
+                part: v.get("part_index")?.as_u64()? as usize,
             },
             v.get("vector")?.as_array()?.iter().map(|x| x.as_u64().unwrap_or(0) as u32).collect(),
         ))
@@ -224,17 +230,18 @@ fn point(f: &Fired) -> String {
     format!("cancel-{}-{}", f.variant, f.call)
 }
 
-fn judge(rep: &mut Report, h: &Hist, ch: &Chooser, o: &Obs, table: &mut BTreeMap<String, (u64, u64)>) {
-    let replay = h.to_json(&ch.vector());
+fn judge(mv: &mut MinV, h: &Hist, ch: &Chooser, o: &Obs, table: &mut BTreeMap<String, (u64, u64)>) {
+    let replay = || h.to_json(&ch.vector());
     let ctx = || format!("{}; what happened: {}; rows of orderer_ready_v1 (node, in_queue): {:?}", h.describe(), o.script.join(" "), o.rows);
+    let size = (o.cancels.len() as u64, h.order.len() as u64, o.script.len() as u64 + if h.drain_each { 1 } else { 0 });
     let last_point = o.cancels.last().map(|c| point(&c.fired)).unwrap_or_else(|| "no-cancel".into());
     if let Some(hang) = &o.hang {
-        rep.violation(format!("hang/{last_point}"), format!("{hang}; {}", ctx()), replay);
+        mv.add(format!("hang/{last_point}"), size, || format!("{hang}; {}", ctx()), replay);
         return;
     }
     if let Some(e) = &o.error {
         let class = if e.starts_with("panic") { "panic" } else { "error" };
-        rep.violation(format!("{class}/{last_point}"), format!("{e}; {}", ctx()), replay);
+        mv.add(format!("{class}/{last_point}"), size, || format!("{e}; {}", ctx()), replay);
         return;
     }
     for c in &o.cancels {
@@ -246,10 +253,11 @@ fn judge(rep: &mut Report, h: &Hist, ch: &Chooser, o: &Obs, table: &mut BTreeMap
     let released: Vec<usize> = o.rows.iter().filter_map(|(n, _)| n.clone().ok()).collect();
     for x in 0..n {
         if !released.contains(&x) {
-            rep.violation(
-                "item-not-released",
-                format!("n{x} has no row in orderer_ready_v1 although all its dependencies were processed; {}", ctx()),
-                replay.clone(),
+            mv.add(
+                "item-not-released".into(),
+                size,
+                || format!("n{x} has no row in orderer_ready_v1 although all its dependencies were processed; {}", ctx()),
+                replay,
             );
         }
     }
@@ -257,7 +265,7 @@ fn judge(rep: &mut Report, h: &Hist, ch: &Chooser, o: &Obs, table: &mut BTreeMap
         let x = match node {
             Ok(x) => *x,
             Err(id) => {
-                rep.violation("unknown-ready-row", format!("row {id}; {}", ctx()), replay.clone());
+                mv.add("unknown-ready-row".into(), size, || format!("row {id}; {}", ctx()), replay);
                 continue;
             }
         };
@@ -267,82 +275,147 @@ fn judge(rep: &mut Report, h: &Hist, ch: &Chooser, o: &Obs, table: &mut BTreeMap
         let cp = culprit.map(|c| point(&c.fired)).unwrap_or_else(|| "no-cancelled-call-took-it".into());
         if times == 0 {
             if *in_queue {
-                rep.violation(
+                mv.add(
                     format!("released-item-stuck-in-queue/{cp}"),
-                    format!("n{x} is still queued (in_queue = TRUE) although `next` parked as if the queue were empty; {}", ctx()),
-                    replay.clone(),
+                    size,
+                    || format!("n{x} is still queued (in_queue = TRUE) although `next` parked as if the queue were empty; {}", ctx()),
+                    replay,
                 );
             } else {
                 if let Some(c) = culprit {
                     table.entry(format!("{}/{}", c.fired.call, c.fired.variant)).or_default().1 += 1;
                 }
-                rep.violation(
+                mv.add(
                     format!("released-item-lost/{cp}"),
-                    format!(
-                        "n{x} was dequeued (in_queue = FALSE) but no `next` call ever returned it: the `next` future that had taken it was dropped at the injected Pending ({}){}; {}",
-                        cp,
-                        culprit.map(|c| format!(", store calls of that `next`: {:?}", c.trace)).unwrap_or_default(),
-                        ctx()
-                    ),
-                    replay.clone(),
+                    size,
+                    || {
+                        format!(
+                            "n{x} was dequeued (in_queue = FALSE) but no `next` call ever returned it: the `next` future that had taken it was dropped at the injected Pending ({}){}; {}",
+                            cp,
+                            culprit.map(|c| format!(", store calls of that `next`: {:?}", c.trace)).unwrap_or_default(),
+                            ctx()
+                        )
+                    },
+                    replay,
                 );
             }
         } else if times > 1 {
-            rep.violation(
-                format!("released-item-returned-twice/{cp}"),
-                format!("n{x} was returned by {times} `next` calls; {}", ctx()),
-                replay.clone(),
-            );
+            mv.add(format!("released-item-returned-twice/{cp}"), size, || format!("n{x} was returned by {times} `next` calls; {}", ctx()), replay);
         } else if *in_queue {
-            rep.violation(
+            mv.add(
                 format!("returned-item-still-queued/{cp}"),
-                format!("n{x} was returned once but its row still says in_queue = TRUE; {}", ctx()),
-                replay.clone(),
+                size,
+                || format!("n{x} was returned once but its row still says in_queue = TRUE; {}", ctx()),
+                replay,
             );
         }
     }
     for r in &o.returned {
         if !released.contains(r) {
-            rep.violation("returned-item-not-in-ready-table", format!("n{r}; {}", ctx()), replay.clone());
+            mv.add("returned-item-not-in-ready-table".into(), size, || format!("n{r}; {}", ctx()), replay);
         }
     }
     if o.pending_rows != 0 {
-        rep.violation("pending-rows-left", format!("{} rows left in orderer_pending_v1; {}", o.pending_rows, ctx()), replay);
+        mv.add("pending-rows-left".into(), size, || format!("{} rows left in orderer_pending_v1; {}", o.pending_rows, ctx()), replay);
     }
 }
 
-fn pick_hist(ch: &Chooser, shapes: &[&'static str], max_cancels: usize) -> Hist {
-    let shape = shapes[ch.choose_free(shapes.len(), "shape")];
+#[derive(Clone, Debug)]
+struct Part {
+    name: &'static str,
+    shapes: Vec<&'static str>,
+    /// every processing order (else: dependency-first and dependents-first only)
+    all_orders: bool,
+    max_cancels: usize,
+    wall: u64,
+}
+
+fn parts(thorough: bool) -> Vec<Part> {
+    if thorough {
+        vec![
+            Part { name: "all processing orders, up to 2 cancellations", shapes: vec!["single", "chain2", "chain3", "fork3", "diamond4"], all_orders: true, max_cancels: 2, wall: 330 },
+            Part { name: "small graphs, up to 3 cancellations", shapes: vec!["single", "chain2", "fork3"], all_orders: false, max_cancels: 3, wall: 200 },
+        ]
+    } else {
+        vec![
+            Part { name: "single/chain2/fork3, forward/reverse processing order, up to 2 cancellations", shapes: vec!["single", "chain2", "fork3"], all_orders: false, max_cancels: 2, wall: 25 },
+            Part { name: "chain3, forward/reverse processing order, 1 cancellation", shapes: vec!["chain3"], all_orders: false, max_cancels: 1, wall: 10 },
+        ]
+    }
+}
+
+fn perms(n: usize) -> Vec<Vec<usize>> {
+    if n == 0 {
+        return vec![vec![]];
+    }
+    let mut out = vec![];
+    for p in perms(n - 1) {
+        for i in 0..=p.len() {
+            let mut q = p.clone();
+            q.insert(i, n - 1);
+            out.push(q);
+        }
+    }
+    out.sort();
+    out
+}
+
+fn pick_hist(ch: &Chooser, part: &Part, part_index: usize) -> Hist {
+    let shape = part.shapes[ch.choose_free(part.shapes.len(), "shape")];
     let n = shape_lists(shape).len();
-    let order: Vec<usize> = if n > 1 && ch.choose_free(2, "order") == 1 { (0..n).rev().collect() } else { (0..n).collect() };
+    let order: Vec<usize> = if part.all_orders {
+        let ps = perms(n);
+        ps[ch.choose_free(ps.len(), "order")].clone()
+    } else if n > 1 && ch.choose_free(2, "order") == 1 {
+        (0..n).rev().collect()
+    } else {
+        (0..n).collect()
+    };
     let drain_each = ch.choose_free(2, "drain") == 1;
     Hist {
         shape,
         order,
         drain_each,
-        max_cancels,
+        max_cancels: part.max_cancels,
+        part: part_index,
     }
+}
+
+/// Re-execute a recorded (history, vector).
+fn rerun(h: &Hist, vector: Vec<u32>) -> Option<(Hist, Chooser, Obs)> {
+    // parts of both tiers; the recorded history says which one decodes the free choices
+    let all: Vec<Part> = parts(true).into_iter().chain(parts(false)).collect();
+    let part = all.iter().find(|p| {
+        p.max_cancels == h.max_cancels && p.shapes.contains(&h.shape) && {
+            let ch = Chooser::new(vector.clone());
+            &pick_hist(&ch, p, h.part) == h
+        }
+    })?;
+    let ch = Chooser::new(vector);
+    let h2 = pick_hist(&ch, part, h.part);
+    let o = exec(&h2, &ch);
+    Some((h2, ch, o))
 }
 
 pub fn run(mut rep: Report) -> i32 {
     let thorough = rep.thorough();
-    rep.rule = "one execution = one history (graph single/chain2/chain3/fork3, thorough also diamond4; dependency-first or dependents-first processing; `next` after every process or only at the end) with up to 1 (thorough: 2) cancellations of `next`, each at one store call of that `next` (begin, take_next_ready, commit, get_operation) in variant before/during/after; non-trivial = at least one cancellation was injected (the `next` future was dropped at an await point)".into();
+    rep.rule = "one execution = one history (graph single/chain2/chain3/fork3, thorough also diamond4; processing order; `next` after every process or only at the end) with up to 2 (thorough: also 3 on the small graphs) cancellations of `next`, each at one store call of that `next` (begin, take_next_ready, commit, get_operation) in variant before/during/after; non-trivial = at least one cancellation was injected (the `next` future was dropped at an await point)".into();
     let mut table: BTreeMap<String, (u64, u64)> = BTreeMap::new();
+    let mut mv = MinV::new();
 
     if let Some(path) = rep.args.replay.clone() {
         match explorer::report::load_replay(&path) {
             Ok((_k, rp)) => match Hist::from_json(&rp) {
-                Some((h, vector)) => {
-                    let ch = Chooser::new(vector);
-                    // the history choices are part of the vector: consume them the same way
-                    let shapes: Vec<&'static str> = vec!["single", "chain2", "chain3", "fork3", "diamond4"];
-                    let _ = shapes;
-                    let o = exec_with_prefix(&h, &ch);
-                    println!("replay: {}", h.describe());
-                    println!("what happened: {}", o.script.join(" "));
-                    println!("rows: {:?}", o.rows);
-                    judge(&mut rep, &h, &ch, &o, &mut table);
-                }
+                Some((h, vector)) => match rerun(&h, vector) {
+                    Some((h2, ch, o)) => {
+                        println!("replay: {}", h2.describe());
+                        println!("what happened: {}", o.script.join(" "));
+                        println!("rows: {:?}", o.rows);
+                        judge(&mut mv, &h2, &ch, &o, &mut table);
+                        mv.flush(&mut rep);
+                    }
+                    None => rep.machinery_error("replay vector does not decode to the recorded history".into()),
+                },
                 None => rep.machinery_error("replay file has no C12 history".into()),
             },
             Err(e) => rep.machinery_error(e),
@@ -351,43 +424,51 @@ pub fn run(mut rep: Report) -> i32 {
         return rep.finish();
     }
 
-    let shapes: Vec<&'static str> = if thorough { vec!["single", "chain2", "chain3", "fork3", "diamond4"] } else { vec!["single", "chain2", "chain3", "fork3"] };
-    let max_cancels = if thorough { 2 } else { 1 };
-    let cfg = DfsCfg {
-        max_dev: max_cancels,
-        max_execs: u64::MAX,
-        wall: Duration::from_secs(if thorough { 540 } else { 35 }),
-        threads: rep.args.threads,
-    };
     let mut first_poll_ready = 0u64;
-    {
+    for (pi, part) in parts(thorough).iter().enumerate() {
+        let cfg = DfsCfg {
+            max_dev: part.max_cancels,
+            max_execs: u64::MAX,
+            wall: Duration::from_secs(part.wall),
+            threads: rep.args.threads,
+        };
         let rep_ref = &mut rep;
         let table_ref = &mut table;
+        let mv_ref = &mut mv;
         let fpr = &mut first_poll_ready;
-        let shapes = &shapes;
         let st = dfs_par(
             &cfg,
             |ch| {
-                let h = pick_hist(ch, shapes, max_cancels);
+                let h = pick_hist(ch, part, pi);
                 let o = exec(&h, ch);
                 (h, o)
             },
             |ch, (h, o)| {
                 *fpr += o.during_completed_first_poll;
                 if !o.cancels.is_empty() {
-                    rep_ref.nontrivial(&ch.vector());
+                    rep_ref.nontrivial(&(pi, ch.vector()));
                 }
                 rep_ref.outcome(&(h.shape, &h.order, h.drain_each, &o.returned, o.rows.iter().map(|r| r.1).collect::<Vec<_>>()));
                 rep_ref.state(&(h.shape, &h.order, h.drain_each, &o.script));
-                if rep_ref.want_sample() && o.cancels.len() == max_cancels && h.shape == "fork3" && o.error.is_none() {
+                if rep_ref.want_sample() && o.cancels.len() == 2 && h.shape == "fork3" && o.error.is_none() && o.returned.len() == 3 {
                     rep_ref.sample(json!({"history": h.describe(), "what_happened": o.script.join(" "), "returned": o.returned}));
                 }
-                judge(rep_ref, &h, ch, &o, table_ref);
+                judge(mv_ref, &h, ch, &o, table_ref);
             },
         );
-        rep.absorb_dfs("orderer next cancellation", &st, max_cancels);
+        rep.absorb_dfs(part.name, &st, part.max_cancels);
     }
+    mv.confirm(&mut rep, |rp| match Hist::from_json(rp).and_then(|(h, v)| rerun(&h, v)) {
+        Some((h, ch, o)) => {
+            let mut m = MinV::new();
+            let mut t = BTreeMap::new();
+            judge(&mut m, &h, &ch, &o, &mut t);
+            m.minimal_cases().into_iter().map(|(k, _)| k).collect()
+        }
+        None => vec![],
+    });
     Ctx::drain_pool();
+    mv.flush(&mut rep);
     let t: BTreeMap<String, Value> = table
         .iter()
         .map(|(k, (n, lost))| (k.clone(), json!({"cancellations": n, "followed_by_lost_item": lost})))
@@ -398,13 +479,4 @@ pub fn run(mut rep: Report) -> i32 {
     rep.assume("variant 'during' drops the future after the first poll of the real SQLite call returned Pending: the command has been handed to sqlx's worker thread, which still executes it; if the real call happened to complete within its first poll the case degenerates to variant 'after' (counted in during_variant_completed_within_first_poll)");
     rep.assume("process() calls are never cancelled (Buffer awaits them inside the select! arm body)");
     rep.finish()
-}
-
-/// Replay: the recorded vector already contains the history choices (shape, order, drain), so
-/// they are consumed from the chooser exactly as during exploration.
-fn exec_with_prefix(h: &Hist, ch: &Chooser) -> Obs {
-    let shapes: Vec<&'static str> = if h.max_cancels >= 2 { vec!["single", "chain2", "chain3", "fork3", "diamond4"] } else { vec!["single", "chain2", "chain3", "fork3"] };
-    let h2 = pick_hist(ch, &shapes, h.max_cancels);
-    debug_assert_eq!(&h2, h);
-    exec(&h2, ch)
 }
